@@ -89,7 +89,7 @@ def main():
             behs += g.traces
             run.add_tlc(g, "SemaphoreGen N=%d NQ=%d (exhaustive)" % (n, nq))
         n_exh = len(behs)
-        sims = [(2, 4, 300), (1, 4, 150)] if not thorough else [(2, 4, 15000), (1, 4, 8000), (3, 5, 4000), (2, 5, 3000)]
+        sims = [(2, 4, 200), (1, 4, 100)] if not thorough else [(2, 4, 15000), (1, 4, 8000), (3, 5, 4000), (2, 5, 3000)]
         for n, nq, num in sims:
             g = vlib.tlc("semaphore", "SemaphoreGen", _gen_cfg(n, nq), workers=1, simulate=num, depth=4 * nq + 8,
                          seed=run.seed, scratch=sc, timeout=900)
